@@ -103,9 +103,17 @@ func c13Interpret(v *CView, a *api.ContainerAdjustment) {
 				v.Res.set("mem.limit", x)
 				v.Res.set("mem.swap", x) // the repository's own suite asserts this coupling
 			case it == "blockio":
-				v.Res.S["blockio"] = fmt.Sprint(hashName(strings.TrimPrefix(x, "=")))
+				if x == "=" { // the empty class means "no class": the block I/O section is cleared
+					delete(v.Res.S, "blockio")
+				} else {
+					v.Res.S["blockio"] = fmt.Sprint(hashName(strings.TrimPrefix(x, "=")))
+				}
 			case it == "rdt":
-				v.Res.S["rdt"] = strings.TrimPrefix(x, "=")
+				if x == "=" {
+					delete(v.Res.S, "rdt")
+				} else {
+					v.Res.S["rdt"] = strings.TrimPrefix(x, "=")
+				}
 			case generatorCarries(it):
 				v.Res.set(it, x)
 			}
